@@ -177,6 +177,12 @@ pub fn check(case: &Case, idx: u64, acc: &mut Acc) {
             let hi = days_from_civil(2201, 2, 28);
             let bm = Bitmap::of(&cal, lo, hi);
             check_rolls(&cal, &bm, DAY_MIN, day_max(), "NamedCal", case, idx, acc);
+            if name.contains('|') {
+                // the same calendar inside the CalType container (its own dispatch of the predicates), judged
+                // against the NAMED calendar's predicates, over 2015-2035
+                let ct = CalType::NamedCal(cal.clone());
+                check_rolls(&ct, &bm, days_from_civil(2015, 1, 1), days_from_civil(2035, 12, 31), "CalType/NamedCal", case, idx, acc);
+            }
             acc.sample(|| serde_json::to_value(case).unwrap());
         }
         Case::Run { r, start, b } => {
@@ -303,7 +309,7 @@ pub fn run(ctx: &Ctx, replay_file: Option<String>) -> ! {
          but not settleable, S settleable}^W (all S outside), realised as UnionCal (two or three members and one or two settlement calendars \
          split the N / B days), CalType and, for B-free words, Cal; month boundary after every position 0..W on three \
          anchors (leap Feb->Mar, common Feb->Mar, Dec->Jan); every date of the window +-2, 5 modifiers, both \
-         settlement flags. (2) all 14 built-in calendars and 5 named unions over EVERY date 1970-2200. (3) all 127 \
+         settlement flags. (2) all 14 built-in calendars and 5 named unions over EVERY date 1970-2200 (the piped ones also wrapped in the CalType container over 2015-2035, judged against the named calendar's own predicates). (3) all 127 \
          week masks x 5 settlement masks x every holiday subset of one week. (4) long runs of 12..70 and of 365, 366, 367, 400, 430, 800 consecutive closures \
          at every alignment against two month ends, with and without settlement closures right after the run. Oracle: linear searches on a bitmap of \
          the calendar's definition (the word / the week masks and holidays) - for the named calendars, of their own \
